@@ -160,6 +160,7 @@ PROPS = {
         'mc_quick': ['MC_quick.cfg'], 'sim': None,
         'title': 'Internal OS errors',
         'fault_units': (500, 6000, 4, 0),      # base histories quick/thorough, fault points per history (0 = all)
+        'fault_extra': [('faultretry', 120, 1500, 0, 0)],   # programs that retry / fall back after a caught error; all points
         'units': [],
         'owned': set(CLAUSE_OWNER) | {'FaultSurfaces', 'FaultLeavesConsistent', 'CacheReplacedOnlyOnSuccess'},
         'nontrivial': lambda st, sc: sc.get('fault_at') is not None,
@@ -211,7 +212,7 @@ PROPS = {
         'full_pairs': (12, 150),                     # two-thread histories whose (k1, k2) preemption pairs are all enumerated
         # concurrent rebuilds of existing outputs followed by a rollback: profile, histories q/t, singles q/t (0 = all),
         # pairs q/t, fully enumerated histories q/t
-        'thread_extra': [('threadsrb', 40, 500, 0, 0, 2, 10, 2, 30)],
+        'thread_extra': [('threadsrb', 40, 500, 0, 0, 2, 10, 2, 30), ('threadsq', 60, 600, 8, 0, 2, 8, 4, 40)],
         'units': [('regress', 0, 0)],
         'owned': set(CLAUSE_OWNER) | {'NoDeadlock'},
         'nontrivial': lambda st, sc: any(x.get('s') == 'par' and (x.get('preempt') or x.get('rseed') is not None)
